@@ -2,6 +2,7 @@ package c04
 
 import (
 	"fmt"
+	"iter"
 	"strconv"
 	"strings"
 
@@ -30,23 +31,66 @@ func atois(ts []string) ([]int, bool) {
 	return r, true
 }
 
+// sliceHdr: the tokens after `@ C04`: `slice <cmp> v…` = FromSlice(v…), `slicen <cmp> <cap>` =
+// NewSlice(cap) (empty).
+func sliceHdr(hdr []string) (cmp func(a, b int) bool, vs []int, capN int, ok bool) {
+	if len(hdr) < 2 {
+		return
+	}
+	cmp = cmpOf(hdr[1])
+	if cmp == nil {
+		return
+	}
+	if hdr[0] == "slicen" {
+		if len(hdr) != 3 {
+			return
+		}
+		c, ok1 := atoi(hdr[2])
+		if !ok1 || c < 0 || c > 1<<20 || strings.HasPrefix(hdr[2], "-") {
+			return
+		}
+		return cmp, []int{}, c, true
+	}
+	vs, ok = atois(hdr[2:])
+	return cmp, vs, -1, ok
+}
+
 func implSlice(c core.Case) []string {
 	var s heapz.Slice[int]
+	var seqs []iter.Seq[int] // slot -> the Seq value `s.PopAll()` returned when `seq` was executed
 	return core.RunOps(c,
 		func(hdr []string) string {
-			if len(hdr) < 2 {
+			cmp, vs, capN, ok := sliceHdr(hdr)
+			if !ok {
 				return "bad-op"
 			}
-			cmp := cmpOf(hdr[1])
-			vs, ok := atois(hdr[2:])
-			if cmp == nil || !ok {
-				return "bad-op"
+			if capN >= 0 {
+				s = heapz.NewSlice[int](capN, cmp)
+			} else {
+				s = heapz.FromSlice(vs, cmp)
 			}
-			s = heapz.FromSlice(vs, cmp)
 			return "ok " + fmt.Sprint(s.Values)
 		},
 		func(t []string) string {
 			switch {
+			case len(t) == 1 && t[0] == "seq":
+				seqs = append(seqs, s.PopAll())
+				return "ok " + fmt.Sprint(s.Values)
+			case len(t) == 3 && t[0] == "range":
+				sl, ok1 := slotOf(t[1], len(seqs))
+				k, ok2 := atoi(t[2])
+				if !ok1 || !ok2 || k < 1 || strings.HasPrefix(t[2], "-") {
+					return "bad-op"
+				}
+				xs := takeSeq(seqs[sl], k)
+				return fmt.Sprintf("%v %v", xs, s.Values)
+			case len(t) == 2 && t[0] == "rangeall":
+				sl, ok := slotOf(t[1], len(seqs))
+				if !ok {
+					return "bad-op"
+				}
+				xs := takeSeq(seqs[sl], 0)
+				return fmt.Sprintf("%v %v", xs, s.Values)
 			case len(t) == 2 && t[0] == "push":
 				x, ok := atoi(t[1])
 				if !ok {
@@ -126,13 +170,13 @@ func checkSlice(c core.Case, out []string) *core.Failure {
 	if len(hdr) < 4 {
 		return nil
 	}
-	cmp := cmpOf(hdr[3])
-	ref, ok := atois(hdr[4:])
-	if cmp == nil || !ok {
+	cmp, ref, _, ok := sliceHdr(hdr[2:])
+	if !ok {
 		return nil
 	}
+	nseq := 0 // Seq values made so far
 	if !strings.HasPrefix(out[0], "ok ") {
-		return &core.Failure{Key: "slice-init", Desc: "FromSlice answered " + out[0]}
+		return &core.Failure{Key: "slice-init", Desc: "FromSlice / NewSlice answered " + out[0]}
 	}
 	cur, ok := parseInts(out[0][3:])
 	if !ok || !sameMultiset(cur, ref) {
@@ -146,6 +190,17 @@ func checkSlice(c core.Case, out []string) *core.Failure {
 		t := core.Toks(c.Lines[i])
 		if len(t) == 0 || out[i] == "bad-op" {
 			return nil
+		}
+		if (t[0] == "range" && len(t) == 3) || (t[0] == "rangeall" && len(t) == 2) {
+			// ranging over a stored Seq = ranging over PopAll() of the heap as it is NOW
+			if _, ok := slotOf(t[1], nseq); !ok {
+				return nil
+			}
+			if t[0] == "range" {
+				t = []string{"popalln", t[2]}
+			} else {
+				t = []string{"popall"}
+			}
 		}
 		if t[0] == "setfix" && len(t) == 3 {
 			if idx, ok := atoi(t[1]); !ok || idx < 0 || idx >= len(cur) {
@@ -166,6 +221,12 @@ func checkSlice(c core.Case, out []string) *core.Failure {
 			return nil // the caller broke the heap and did not call Fix: nothing is promised
 		}
 		switch t[0] {
+		case "seq":
+			// PopAll() only builds the Seq: nothing is popped before somebody ranges over it
+			if res != "ok" || fmt.Sprint(vals) != fmt.Sprint(prev) {
+				return fail("slice-seq-create", i, c, out, "calling PopAll() without ranging over the result must not change anything (before: %v)", prev)
+			}
+			nseq++
 		case "push":
 			x, _ := atoi(t[1])
 			ref = append(ref, x)
@@ -385,6 +446,11 @@ func genSlice(r *core.Rand) core.Case {
 	if r.Chance(10) {
 		n = r.Range(10, 40)
 	}
+	if r.Chance(15) {
+		// NewSlice(cap, ·): starts empty; the pushes cross the capacity
+		n = 0
+		hdr = fmt.Sprintf("@ C04 slicen %s %d", cn, pickCap(r))
+	}
 	vs := make([]int, n)
 	for i := range vs {
 		vs[i] = val()
@@ -397,13 +463,47 @@ func genSlice(r *core.Rand) core.Case {
 	if n >= 10 {
 		target = n
 	}
+	// Seq values obtained EARLY (`seq` = q := s.PopAll()), ranged over late
+	nseq, lastSlot := 0, -1
+	if r.Chance(40) {
+		for i := r.Range(1, 2); i > 0; i-- {
+			lines = append(lines, "seq")
+			nseq++
+		}
+		ops = max(ops, r.Range(8, 30))
+	}
 	for len(lines) <= ops {
 		n := len(sim.arr[0])
 		pushW := 16
 		if n < target {
 			pushW = 40
 		}
-		switch r.Pick(pushW, 18, 3, 2, 22, 12, 6, 1, 10, 3) {
+		rangeW := 0
+		if nseq > 0 {
+			rangeW = 12
+		}
+		switch r.Pick(pushW, 18, 3, 2, 22, 12, 6, 1, 10, 3, rangeW, 1) {
+		case 10:
+			sl := r.Intn(nseq)
+			if lastSlot >= 0 && r.Chance(55) {
+				sl = lastSlot
+			}
+			lastSlot = sl
+			if r.Chance(10) {
+				lines = append(lines, fmt.Sprintf("rangeall %d", sl))
+				for len(sim.arr[0]) > 0 {
+					sim.pop(0, 'a')
+				}
+				break
+			}
+			k := pickStop(r, n)
+			lines = append(lines, fmt.Sprintf("range %d %d", sl, k))
+			for ; k > 0 && len(sim.arr[0]) > 0; k-- {
+				sim.pop(0, 'p')
+			}
+		case 11:
+			lines = append(lines, "seq")
+			nseq++
 		case 9:
 			k := pickStop(r, n)
 			lines = append(lines, fmt.Sprintf("popalln %d", k))
